@@ -7,6 +7,7 @@ import (
 	"encoding/json"
 	"fmt"
 	"os"
+	"strings"
 	"time"
 
 	"verifharness/internal/core"
@@ -127,6 +128,10 @@ func (prop) Shrink(in json.RawMessage) []json.RawMessage {
 				add(input{Kind: "prog", Mode: inp.Mode, Prog: q})
 			}
 		}
+		// 1a. only the functions the asked calls can reach (through call targets and function literals)
+		if q := cloneProg(p); pruneFuncs(q) {
+			add(input{Kind: "prog", Mode: inp.Mode, Prog: q})
+		}
 		// 1b. fewer files: everything in the main file; one function moved to the main file; one package-level call dropped
 		if p.multiFile() || len(p.PkgCalls) > 0 {
 			q := cloneProg(p)
@@ -177,6 +182,93 @@ func (prop) Shrink(in json.RawMessage) []json.RawMessage {
 		}
 	}
 	return out
+}
+
+// pruneFuncs drops every table entry that the functions asked for (Calls, PkgCalls) do not reach through a call
+// target or a function-literal expression, and renumbers the table indices.  The prelude entry (errors.New,
+// target 1 by convention) and the interface methods (printed with the prelude) stay.
+func pruneFuncs(p *Prog) bool {
+	keep := make([]bool, len(p.Funcs))
+	var work []int
+	mark := func(i int) {
+		if i >= 0 && i < len(p.Funcs) && !keep[i] {
+			keep[i] = true
+			work = append(work, i)
+		}
+	}
+	for i, f := range p.Funcs {
+		if f.Prelude || f.Iface {
+			mark(i)
+		}
+	}
+	for _, c := range p.Calls {
+		mark(c.F)
+	}
+	for _, c := range p.PkgCalls {
+		mark(c.F)
+	}
+	var walkE func(e *Expr, f func(e *Expr))
+	walkE = func(e *Expr, f func(e *Expr)) {
+		if e == nil {
+			return
+		}
+		f(e)
+		for _, a := range e.Args {
+			walkE(a, f)
+		}
+	}
+	var walkS func(ss []*Stmt, f func(e *Expr))
+	walkS = func(ss []*Stmt, f func(e *Expr)) {
+		for _, s := range ss {
+			for _, e := range s.Rhs {
+				walkE(e, f)
+			}
+			for _, b := range s.Blocks {
+				walkS(b, f)
+			}
+		}
+	}
+	for len(work) > 0 {
+		i := work[len(work)-1]
+		work = work[:len(work)-1]
+		walkS(p.Funcs[i].Body, func(e *Expr) {
+			if e.K == "call" && e.Target > 0 {
+				mark(e.Target - 1)
+			}
+			if e.K == "lit" {
+				mark(e.F)
+			}
+		})
+	}
+	renum := make([]int, len(p.Funcs))
+	var funcs []*Func
+	for i, f := range p.Funcs {
+		renum[i] = len(funcs)
+		if keep[i] {
+			funcs = append(funcs, f)
+		}
+	}
+	if len(funcs) == len(p.Funcs) {
+		return false
+	}
+	for _, f := range funcs {
+		walkS(f.Body, func(e *Expr) {
+			if e.K == "call" && e.Target > 0 && e.Target-1 < len(renum) {
+				e.Target = renum[e.Target-1] + 1
+			}
+			if e.K == "lit" && e.F >= 0 && e.F < len(renum) {
+				e.F = renum[e.F]
+			}
+		})
+	}
+	for i := range p.Calls {
+		p.Calls[i].F = renum[p.Calls[i].F]
+	}
+	for i := range p.PkgCalls {
+		p.PkgCalls[i].F = renum[p.PkgCalls[i].F]
+	}
+	p.Funcs = funcs
+	return true
 }
 
 func cloneProg(p *Prog) *Prog {
@@ -516,6 +608,105 @@ func fixedPrograms() []*Prog {
 		tableFn(p, "MutB", pkgA, 0, []Res{{Ty: tAny}, {Ty: tErr}}, []*Stmt{
 			{K: "group", Head: "if", Blocks: [][]*Stmt{{ret(lit(`"b"`, Ty{K: "untyped"}), val("&E{}", Ty{K: "errimpl", P: pkgA}))}}},
 			ret(tcall("MutA", a, []Ty{tAny, tErr}, one(), nilExpr(), nilExpr())),
+		})
+		p.Calls = callsOf(p)
+		out = append(out, p)
+	}
+	{ // named results with blank identifiers at every position, grouped and not, bare returns after assignments to the
+		// named ones mixed with explicit returns; named results declared again in an inner scope
+		// (seeded change C14-m: the index -> result variable mapping of a bare return does not count blank names)
+		p := baseProg(false)
+		u := func(s string) *Expr { return lit(s, Ty{K: "untyped"}) }
+		errE := func() *Expr { return val("&E{}", Ty{K: "errimpl", P: pkgA}) }
+		errNew := func() *Expr {
+			return &Expr{K: "call", Fun: "errors.New", IsSig: true, CRes: []Ty{tErr}, PErr: []bool{false}, Target: 1, Args: []*Expr{u(`"x"`)}}
+		}
+		bare := func() *Stmt { return &Stmt{K: "return", Bare: true} }
+		iff := func(ss ...*Stmt) *Stmt { return &Stmt{K: "group", Head: "if", Blocks: [][]*Stmt{ss}} }
+		// results from a spec "name:type": objects are numbered as they come, blank ones included
+		mk := func(grouped bool, name string, spec ...string) (int, map[string]Lhs) {
+			var res []Res
+			vars := map[string]Lhs{}
+			for _, sp := range spec {
+				nm, k, _ := strings.Cut(sp, ":")
+				p.NObj++
+				ty := mkTy(k, pkgA)
+				res = append(res, Res{Ty: ty, Name: nm, Obj: p.NObj})
+				if nm != "_" {
+					vars[nm] = Lhs{K: "ident", Src: nm, Obj: p.NObj, Ty: ty}
+				}
+			}
+			id := tableFn(p, name, pkgA, 0, res, nil)
+			p.Funcs[id].Grouped = grouped
+			return id, vars
+		}
+		set := func(l Lhs, e *Expr) *Stmt { return &Stmt{K: "assign", Tok: "=", Lhs: []Lhs{l}, Rhs: []*Expr{e}} }
+		use := func(l Lhs) *Expr { return ident(l.Src, l.Ty, true, l.Obj) }
+
+		id, v := mk(false, "BlankFirst", "_:int", "r1:error")
+		p.Funcs[id].Body = []*Stmt{set(v["r1"], errNew()), bare()}
+
+		id, v = mk(true, "BlankFirstGrouped", "_:int", "r1:int", "r2:error")
+		p.Funcs[id].Body = []*Stmt{set(v["r1"], u("7")), set(v["r2"], errE()), iff(bare()), ret(u("1"), u("2"), nilExpr())}
+
+		id, v = mk(false, "BlankMiddle", "r0:int", "_:string", "r2:error")
+		p.Funcs[id].Body = []*Stmt{set(v["r0"], u("1")), iff(set(v["r2"], errE()), bare()), ret(u("2"), u(`"s"`), nilExpr())}
+
+		id, v = mk(true, "BlankMiddleGrouped", "r0:int", "_:int", "r2:string", "r3:error")
+		p.Funcs[id].Body = []*Stmt{set(v["r0"], u("1")), set(v["r2"], u(`"s"`)), set(v["r3"], errNew()), bare()}
+
+		id, v = mk(false, "BlankLast", "r0:any", "_:error")
+		p.Funcs[id].Body = []*Stmt{set(v["r0"], u(`"s"`)), iff(ret(u("1.5"), errE())), bare()}
+
+		id, v = mk(false, "BlankSeveral", "_:int", "r1:any", "_:string", "r3:error")
+		p.Funcs[id].Body = []*Stmt{set(v["r1"], u("true && false")), iff(set(v["r3"], errE()), bare()), set(v["r1"], errE()), bare()}
+
+		id, v = mk(true, "BlankTwoGroupedFirst", "_:int", "_:int", "r2:error")
+		p.Funcs[id].Body = []*Stmt{set(v["r2"], errE()), bare()}
+
+		id, _ = mk(false, "BlankAll", "_:int", "_:error")
+		p.Funcs[id].Body = []*Stmt{iff(ret(u("1"), nilExpr())), bare()}
+
+		id, _ = mk(true, "BlankAllGrouped", "_:any", "_:any")
+		p.Funcs[id].Body = []*Stmt{iff(bare()), ret(u("1"), u(`"s"`))}
+
+		id, v = mk(false, "BlankOnly", "_:error")
+		p.Funcs[id].Body = []*Stmt{bare()}
+
+		// the result r1 is declared again in the block: the inner r1 (an *E / what errors.New gives) is another
+		// variable; `return r0, r1` in the block speaks of the inner one, the bare return of the outer one
+		id, v = mk(false, "Shadowed", "r0:any", "r1:error")
+		p.NObj += 2
+		in1 := Lhs{K: "ident", Src: "r1", Obj: p.NObj - 1, Ty: tErr}
+		in0 := Lhs{K: "ident", Src: "r0", Obj: p.NObj, Ty: Ty{K: "errimpl", P: pkgA}}
+		p.Funcs[id].Body = []*Stmt{
+			set(v["r1"], errE()),
+			iff(&Stmt{K: "assign", Tok: ":=", Lhs: []Lhs{in1}, Rhs: []*Expr{errNew()}}, set(v["r0"], u("1")), ret(use(v["r0"]), use(in1))),
+			&Stmt{K: "group", Head: "for", Blocks: [][]*Stmt{{
+				&Stmt{K: "assign", Tok: ":=", Lhs: []Lhs{in0}, Rhs: []*Expr{errE()}}, set(in0, nilExpr()), iff(ret(use(in0), use(v["r1"])))}}},
+			bare(),
+		}
+
+		// blank first and a result declared again, together
+		id, v = mk(false, "BlankAndShadowed", "_:int", "r1:error", "r2:any")
+		p.NObj++
+		in2 := Lhs{K: "ident", Src: "r1", Obj: p.NObj, Ty: tErr}
+		p.Funcs[id].Body = []*Stmt{
+			iff(&Stmt{K: "assign", Tok: ":=", Lhs: []Lhs{in2}, Rhs: []*Expr{use(v["r1"])}}, set(in2, errNew()), set(v["r2"], use(in2))),
+			set(v["r1"], errE()),
+			bare(),
+		}
+
+		// a literal with a blank first result handed to a callee that returns what the callback returns
+		w := tableFn(p, "Through", pkgA, 1, []Res{{Ty: tInt}, {Ty: tErr}}, []*Stmt{ret(&Expr{K: "call", Fun: "cb", IsSig: true, CRes: []Ty{tInt, tErr}})})
+		p.NObj += 2
+		q1 := Lhs{K: "ident", Src: "q1", Obj: p.NObj, Ty: tErr}
+		litF := &Func{Name: "lit", Pkg: pkgA, IsLit: true, Cb: 0, Res: []Res{{Ty: tInt, Name: "_", Obj: p.NObj - 1}, {Ty: tErr, Name: "q1", Obj: p.NObj}},
+			Body: []*Stmt{set(q1, errE()), bare()}}
+		p.Funcs = append(p.Funcs, litF)
+		lid := len(p.Funcs) - 1
+		tableFn(p, "BlankInLiteral", pkgA, 0, []Res{{Ty: tInt}, {Ty: tErr}}, []*Stmt{
+			ret(tcall("Through", w, []Ty{tInt, tErr}, one(), nilExpr(), &Expr{K: "lit", F: lid, Ty: Ty{K: "func", P: 1}})),
 		})
 		p.Calls = callsOf(p)
 		out = append(out, p)
